@@ -151,3 +151,8 @@ pub use storage::{NdarrayConfig, NdarrayTrace, NdarrayValue};
 
 #[cfg(feature = "arrow")]
 pub use storage::{ArrowConfig, ArrowTrace, ArrowTraceStorage};
+
+/// Verification seam (off by default, `--cfg nuts_rs_verif`): names the simulation harness needs that
+/// are otherwise crate-private. Adds no behaviour.
+#[cfg(nuts_rs_verif)]
+pub mod verif;
